@@ -4,7 +4,7 @@ import itertools
 PROPERTY = 'C16'
 LEVEL = 'exploration'
 TIMEOUT_S = 900
-RULE = ('n_v in {6,7,10} x process grids (ranks whose block does not start at r-index 0 or z-index 0) x real / complex density storage x spline path of the '
+RULE = ('n_v in {4,5 (one and two cells of the uniform cubic v spline),6,7,10} x process grids (ranks whose block does not start at r-index 0 or z-index 0) x real / complex density storage x spline path of the '
         'v basis; f = unit impulse along v at every (r,theta,z) position class of the block, the equilibrium, a dense field; getPerturbedRho and getRho, each '
         'called on a density grid pre-filled with NaN+NaN*j poison and called twice; oracle = exact-rational quadrature weights of the v interpolant '
         '(pgv.refspline) and an independently coded closed-form equilibrium at the point\'s *global* radius; equilibrium f gives exactly 0; an evaluation is '
@@ -21,6 +21,10 @@ def cases(tier, seed):
         if tier == 'quick' and vdeg == 2 and (nv != 7 or g not in ((2, 2), (3, 1))):
             continue
         out.append({'nv': nv, 'grid': list(g), 'complex': cplx, 'vdeg': vdeg, 'cost': 20 * g[0] * g[1]})
+    # the smallest v grids: 4 and 5 points are 1 and 2 cells of the default uniform cubic v spline (basis functions cut by both ends)
+    for nv in (4, 5):
+        for g in ((1, 1), (2, 1), (4, 1), (2, 2)):
+            out.append({'nv': nv, 'grid': list(g), 'complex': False, 'vdeg': 3, 'cost': 20 * g[0] * g[1]})
     return out
 
 
